@@ -217,7 +217,7 @@ def _job(args):
         res["lines"] = {k: sorted(v) for k, v in h.interp.lines.items()}
     except (symex.NotEncodable, symex.BoundExceeded) as ex:
         res["errors"].append(f"{type(ex).__name__}: {ex}")
-    except Exception as ex:  # harness error
+    except (Exception, symex.Infeasible, symex.Cut) as ex:  # harness error
         res["errors"].append("harness error: " + "".join(traceback.format_exception(ex))[-1500:])
     res["verdicts"] = dict(res["verdicts"])
     res["wall"] = time.time() - t0
